@@ -1,5 +1,6 @@
 use crate::ctx::Ctx;
 
+pub mod c07;
 pub mod c09;
 pub mod c10;
 pub mod c14;
@@ -8,6 +9,7 @@ pub mod c17;
 
 pub fn dispatch(ctx: &mut Ctx) -> bool {
     match ctx.prop.as_str() {
+        "C07" => c07::run(ctx),
         "C09" => c09::run(ctx),
         "C10" => c10::run(ctx),
         "C14" => c14::run(ctx),
